@@ -27,6 +27,8 @@ ASSUMPTIONS = [
 MIN_NONTRIVIAL = 300
 REQUIRED_COUNTERS = ["renders_compared", "frames_checked", "ccall_docs", "caller_body_docs", "argument_errors_matched"]
 REQUIRED_COUNTERS += ["renders_with_output_encoding"]
+RULE += "; directed scenarios for the defs written inside a call (argument defaults from the context / the enclosing argument / a page assignment / the module block; decorated defs reached as caller.<name>)"
+REQUIRED_COUNTERS += ["caller_scenarios"]
 
 _st = {}
 
@@ -421,6 +423,29 @@ CALLER_SCENARIOS = [
                                  '<%self:f a="${g()}">B</%self:f>', "[f:[g:C0]|B]", "C05/def-in-call-arguments-sees-caller", "[f:[g:C1]|B]"),
     ("body-taking-def-in-call-arguments", '<%def name="g()" buffered="True">[g:${caller.body() if caller else "nobody"}]</%def><%def name="f(a)">[f:${a}|${caller.body()}]</%def>'
                                           '<%call expr="f(g())">B</%call>', "[f:[g:nobody]|B]", "C05/def-in-call-arguments-sees-caller", "[f:[g:B]|B]"),
+    # defs written inside a call: their signature follows the rule of every other def (defaults are evaluated where the
+    # def is defined, names not assigned there come from the context) and the callee reaches them by their own name
+    ("call-def-default-from-context", '<%def name="w()">${caller.nx()}</%def><%call expr="w()"><%def name="nx(a=cv)">[${a}]</%def></%call>', "[CV]", None, None),
+    ("call-def-default-from-context-given", '<%def name="w()">${caller.nx("G")}${caller.nx(a="K")}</%def><%call expr="w()"><%def name="nx(a=cv)">[${a}]</%def></%call>', "[G][K]", None, None),
+    ("ns-call-def-default-from-context", '<%def name="w()">${caller.nx()}</%def><%self:w><%def name="nx(a=cv)">[${a}]</%def></%self:w>', "[CV]", None, None),
+    ("call-def-default-from-context-in-def", '<%def name="w()">${caller.nx()}</%def><%def name="o()"><%call expr="w()"><%def name="nx(a=cv, b=cv + \'2\')">[${a}${b}]</%def></%call></%def>${o()}',
+     "[CVCV2]", None, None),
+    ("call-def-default-from-context-in-loop", '<%def name="w()">${caller.nx()}</%def>\\\n% for i in (1, 2):\n<%call expr="w()"><%def name="nx(a=cv)">[${a}${i}]</%def></%call>\\\n% endfor\n',
+     "[CV1][CV2]", None, None),
+    ("call-def-default-from-enclosing-argument", '<%def name="w()">${caller.nx()}</%def><%def name="o(cv)"><%call expr="w()"><%def name="nx(a=cv)">[${a}]</%def></%call></%def>${o("ARG")}',
+     "[ARG]", None, None),
+    ("call-def-default-from-page-assignment", '<% lv = "LV" %><%def name="w()">${caller.nx()}</%def><%call expr="w()"><%def name="nx(a=lv)">[${a}]</%def></%call>', "[LV]", None, None),
+    ("call-def-default-from-module-block", '<%! mv = "MV" %><%def name="w()">${caller.nx()}</%def><%call expr="w()"><%def name="nx(a=mv)">[${a}]</%def></%call>', "[MV]", None, None),
+    ("nested-call-def-default-from-context", '<%def name="w()">${caller.nx()}</%def><%def name="v()">(${caller.body()})</%def>'
+                                             '<%call expr="v()"><%call expr="w()"><%def name="nx(a=cv)">[${a}]</%def></%call></%call>', "([CV])", None, None),
+    ("decorated-call-def-by-name", '<%!\ndef deco(fn):\n    def go(context, *a, **k):\n        context.write("<")\n        fn(*a, **k)\n        context.write(">")\n        return ""\n    return go\n%>'
+                                   '<%def name="w()">${caller.nx("A")}|${caller.body()}</%def><%call expr="w()">B<%def name="nx(a)" decorator="deco">[${a}]</%def></%call>',
+     "<[A]>|B", None, None),
+    ("decorated-ns-call-def-by-name", '<%!\ndef deco(fn):\n    def go(context, *a, **k):\n        context.write("<")\n        fn(*a, **k)\n        context.write(">")\n        return ""\n    return go\n%>'
+                                      '<%def name="w()">${caller.nx()}${caller.ny()}</%def><%self:w><%def name="nx()" decorator="deco">[nx]</%def><%def name="ny()">[ny]</%def></%self:w>',
+     "<[nx]>[ny]", None, None),
+    ("decorated-nested-def-by-name", '<%!\ndef deco(fn):\n    def go(context, *a, **k):\n        context.write("<")\n        fn(*a, **k)\n        context.write(">")\n        return ""\n    return go\n%>'
+                                     '<%def name="o()"><%def name="inner()" decorator="deco">[in]</%def>${inner()}</%def>${o()}', "<[in]>", None, None),
 ]
 
 
@@ -430,11 +455,11 @@ def run_caller_scenarios(res):
         res.evaluations += 1
         res.count("caller_scenarios")
         try:
-            got = T(text).render_unicode()
+            got = T(text).render_unicode(cv="CV")
         except Exception as e:
             got = "%s: %s" % (type(e).__name__, e)
         if got != exp:
-            res.violate("caller-for-whom-" + name, "template %r rendered %r, expected %r" % (text, got, exp),
+            res.violate(("caller-for-whom-" if "caller" in name else "defs-of-a-call-") + name, "template %r rendered %r, expected %r" % (text, got, exp),
                         finding=fid if got == quirk else None,
                         witness='<%call expr="f(g())">B</%call>: g, called to produce f\'s argument, already sees the caller meant for f (C1 / caller.body() gives B)')
         res.nontrivial("caller-scenario", name)
